@@ -432,10 +432,12 @@ Definition recover_fc (fs : list frame) (cs : list commit) : res (list rtx * tai
   Ok (ts, fc_tail fs cs).
 
 (* RecoveryScanReport::last_committed_lsn (maximum, not last) *)
-Definition max_commit_lsn (ts : list rtx) : option N :=
-  fold_left (fun acc t => match acc with
-                          | None => Some (c_last (fst t))
-                          | Some m => Some (N.max m (c_last (fst t))) end) ts None.
+Definition max_step (acc : option N) (t : rtx) : option N :=
+  match acc with
+  | None => Some (c_last (fst t))
+  | Some m => Some (N.max m (c_last (fst t)))
+  end.
+Definition max_commit_lsn (ts : list rtx) : option N := fold_left max_step ts None.
 
 Definition torn_adjust (torn : bool) (r : list rtx * tail) : list rtx * tail :=
   match r with
